@@ -295,3 +295,132 @@ opt-level = 3
             if guard > 200:
                 raise Machinery("farm run: too many shard crashes")
         return out
+
+
+class DeriveFarm(Farm):
+    """Consumer crates whose *only* dependency is graphql_client; every case is a file with a real
+    `#[derive(GraphQLQuery)]`; `cargo check` is the observation (no run)."""
+
+    def __init__(self, name, nshards=NCPU):
+        super().__init__(name, nshards)
+        self.files = {}  # relative path under each shard's gql/ -> text
+
+    def add_file(self, text, ext):
+        rel = sha(text)[:20] + "." + ext
+        self.files[rel] = text
+        return "gql/" + rel
+
+    def _write(self):
+        os.makedirs(self.dir, exist_ok=True)
+        members = []
+        by_shard = {i: [] for i in range(self.nshards)}
+        for cid in sorted(self.cases):
+            by_shard[self.shard_of(cid)].append(cid)
+        for i in range(self.nshards):
+            d = os.path.join(self.dir, self._pkg(i))
+            os.makedirs(os.path.join(d, "src"), exist_ok=True)
+            os.makedirs(os.path.join(d, "gql"), exist_ok=True)
+            members.append(self._pkg(i))
+            write_if_changed(os.path.join(d, "Cargo.toml"), '''[package]
+name = "%s"
+version = "0.0.0"
+edition = "2021"
+publish = false
+[dependencies]
+graphql_client = { path = "%s/graphql_client" }
+''' % (self._pkg(i), REPO))
+            for rel, text in self.files.items():
+                p = os.path.join(d, "gql", rel)
+                if not os.path.exists(p):
+                    with open(p, "w", encoding="utf-8", newline="") as f:
+                        f.write(text)
+            wanted = set()
+            for cid in by_shard[i]:
+                fn = "case_%s.rs" % cid
+                wanted.add(fn)
+                src = "#![allow(warnings)]\n" if cid in self.stubbed else self.cases[cid].tokens
+                write_if_changed(os.path.join(d, "src", fn), src)
+            for fn in os.listdir(os.path.join(d, "src")):
+                if fn.startswith("case_") and fn not in wanted:
+                    os.remove(os.path.join(d, "src", fn))
+            mods = "\n".join("pub mod case_%s;" % c for c in by_shard[i])
+            write_if_changed(os.path.join(d, "src", "lib.rs"), "#![allow(warnings)]\npub mod scalars { pub type Date = String; }\n" + mods + "\n")
+        write_if_changed(os.path.join(self.dir, "Cargo.toml"), '''[workspace]
+resolver = "2"
+members = [%s]
+[profile.dev]
+opt-level = 0
+debug = 0
+incremental = false
+[profile.dev.build-override]
+opt-level = 3
+''' % ", ".join('"%s"' % m for m in members))
+        lock = os.path.join(self.dir, "Cargo.lock")
+        if not os.path.exists(lock):
+            shutil.copy(os.path.join(REPO, "Cargo.lock"), lock)
+        os.makedirs(os.path.join(self.dir, ".cargo"), exist_ok=True)
+        write_if_changed(os.path.join(self.dir, ".cargo", "config.toml"), "[net]\noffline = true\n")
+
+    def _cargo(self):
+        env = base_env()
+        env["CARGO_TARGET_DIR"] = FARM_TARGET
+        env["RUSTFLAGS"] = "--cfg graphql_client_verif"
+        p = subprocess.run(["cargo", "check", "--offline", "--message-format=json", "--keep-going"],
+                           cwd=self.dir, env=env, stdout=subprocess.PIPE, stderr=subprocess.PIPE, text=True)
+        return self._parse(p)
+
+
+def _parse_cargo(p):
+    errors = {}
+    other_errors = []
+    warnings = {}
+    for line in p.stdout.splitlines():
+        if not line.startswith("{"):
+            continue
+        try:
+            m = json.loads(line)
+        except Exception:
+            continue
+        if m.get("reason") != "compiler-message":
+            continue
+        msg = m["message"]
+        level = msg.get("level")
+        if level not in ("error", "warning"):
+            continue
+        code = (msg.get("code") or {}).get("code")
+        files = set()
+
+        def walk(spans):
+            for sp in spans or []:
+                mm = re.search(r"case_([0-9a-f]{16})\.rs$", sp.get("file_name", ""))
+                if mm:
+                    files.add(mm.group(1))
+                exp = sp.get("expansion")
+                if exp and exp.get("span"):
+                    walk([exp["span"]])
+        walk([sp for sp in (msg.get("spans") or []) if sp.get("is_primary")])
+        if not files:
+            walk(msg.get("spans"))
+        if not files:
+            for ch in msg.get("children", []):
+                walk(ch.get("spans"))
+        if level == "warning":
+            for f in files:
+                warnings.setdefault(f, []).append({"code": code, "message": msg.get("message", "")[:300]})
+            continue
+        if not files:
+            if "aborting due to" in msg.get("message", "") or "could not compile" in msg.get("message", ""):
+                continue
+            other_errors.append((code, msg.get("message", "")[:300], (msg.get("rendered") or "")[:600]))
+        for f in files:
+            errors.setdefault(f, []).append({"code": code, "message": msg.get("message", "")[:400]})
+    return p.returncode, errors, other_errors, p.stderr, warnings
+
+
+def _derive_parse(self, p):
+    rc, errors, other, stderr, warnings = _parse_cargo(p)
+    self.warnings = warnings
+    return rc, errors, other, stderr
+
+
+DeriveFarm._parse = _derive_parse
